@@ -132,8 +132,18 @@ fn spaces_from_bdl(bdl: &Data, id_maps: &IdMaps) -> Result<Vec<Space>, Error> {
     bdl.spaces
         .iter()
         .map(|s| {
-            let space_conds = id_maps.loads_id(&s.spaceconds).ok();
-            let system_conds = id_maps.thermostat_id(&s.systemconds).ok();
+            // Una referencia explícita a condiciones de uso u operacionales no definidas es un error
+            // (en LIDER antiguo se usa por defecto el nombre de SPACE-TYPE, que puede no tener definición)
+            let space_conds = match id_maps.loads_id(&s.spaceconds) {
+                Ok(id) => Some(id),
+                Err(e) if s.spaceconds_explicit => return Err(e),
+                Err(_) => None,
+            };
+            let system_conds = match id_maps.thermostat_id(&s.systemconds) {
+                Ok(id) => Some(id),
+                Err(e) if s.systemconds_explicit => return Err(e),
+                Err(_) => None,
+            };
             let illuminance = if s.veei_obj > f32::EPSILON {
                 fround2(100.0 * s.power / s.veei_obj)
             } else {
